@@ -19,7 +19,7 @@ type cutTok struct {
 // genWF emits the tokens of one well-formed expression
 func genWF(r *rng, depth int, out *[]cutTok) {
 	atom := func() {
-		a := r.pick([]string{"a", "foo", "1", "-7", "nil", "true", ":k", "\"s\"", "\"(\"", "\")]}\"", "\"a\\\"b\"", "¬raw¬", "¬)¬", "¬a¬¬(b¬", "x-1", "+", "&", "λ", "\"¬\"", "\"a¬(\"", "\"¬¬¬\""})
+		a := r.pick([]string{"a", "foo", "1", "-7", "nil", "true", ":k", "\"s\"", "\"(\"", "\")]}\"", "\"a\\\"b\"", "¬raw¬", "¬)¬", "¬a¬¬(b¬", "x-1", "+", "&", "λ", "$x", "$tmp", "\"¬\"", "\"a¬(\"", "\"¬¬¬\""})
 		k := "atom"
 		if a[0] == '"' || a[0] == ':' || strings.HasPrefix(a, "¬") {
 			k = "key"
